@@ -69,6 +69,9 @@ def summarised(ex, node, st, kind):
     sub.fallback_relpath = info.relpath
     cenv = {}
     for a in cl.args.args:
+        if a.arg == "_src":
+            cenv[a.arg] = src  # the comprehension's (possibly anonymous) source sequence
+            continue
         if a.arg not in st.env:
             raise OutOfReach(f"comp_{k}: no value for {a.arg}")
         cenv[a.arg] = st.env[a.arg]
@@ -105,6 +108,17 @@ def summarised(ex, node, st, kind):
                 raise OutOfReach("dict comprehension summary")
             body = ex.eval(node.elt, s2)
             es = H.ret.elem if isinstance(H.ret, S.Seq) else None
+            if kind == "gen" and H.ret is S.Bool and not conds:
+                # any(...) / all(...) over the generator, summarised by a recursive Bool spec function: the consumer (b_any / b_all)
+                # emits base and step obligations (False/or for any, True/and for all)
+                ex.guards = saved
+                hcl = info.clause(f"hint_comp_{k}")
+                if hcl is not None:
+                    from .verify import check_hint_shape
+                    from .loops import eval_clause
+                    check_hint_shape(hcl)
+                    st.assume(eval_clause(ex, info, hcl, st, {"_src": src}))
+                return BoolFold(h_0.term, h_p.term, h_n.term, h_L.term, ex.truth(body), s2, k, where)
             if kind in ("list", "gen") and isinstance(H.ret, S.Seq):
                 unit = z3.Unit(ex.term_of(body, H.ret.elem))
                 contrib = z3.If(z3.And(*conds), unit, z3.Empty(H.ret.z3())) if conds else unit
@@ -139,6 +153,13 @@ def summarised(ex, node, st, kind):
     res = h_L
     if kind != "gen" and isinstance(res, VSeq):
         res = VSeq(res.term, res.elem, "list")
+    hcl = info.clause(f"hint_comp_{k}")
+    if hcl is not None:
+        # lemma instances about the summarised comprehension (may name its source as `_src`)
+        from .verify import check_hint_shape
+        from .loops import eval_clause
+        check_hint_shape(hcl)
+        st.assume(eval_clause(ex, info, hcl, st, {"_src": src}))
     return res
 
 
@@ -296,6 +317,21 @@ def do_comp(ex, node, st, kind):
     return materialise(ex, st, GenDesc(src, i, body, rng), "list")
 
 
+class BoolFold(S.V):
+    """any()/all() over a generator with a contract-declared recursive Bool summary"""
+
+    def __init__(self, h0, hp, hn, hL, body, s2, k, where):
+        self.h0, self.hp, self.hn, self.hL, self.body, self.s2, self.k, self.where = h0, hp, hn, hL, body, s2, k, where
+
+
+def _fold(ex, st, x: BoolFold, is_any):
+    base = x.h0 == z3.BoolVal(not is_any)
+    step = x.hn == (z3.Or(x.hp, x.body) if is_any else z3.And(x.hp, x.body))
+    ex.ctx.oblige(st, base, f"comp-base[{x.k}]", x.where, ex.guards)
+    ex.ctx.oblige(x.s2, step, f"comp-step[{x.k}]", x.where, ex.guards)
+    return VBool(x.hL)
+
+
 class VSetList(S.V):
     """a list built by iterating a set: demonic order, accepted only by order-free consumers"""
 
@@ -328,6 +364,8 @@ def materialise(ex, st, g: GenDesc, kind):
 
 def b_any(ex, st, node, args, kw):
     (x,) = args
+    if isinstance(x, BoolFold):
+        return _fold(ex, st, x, True)
     if isinstance(x, GenSet):
         return VBool(z3.Exists([x.c], z3.And(x.dom, ex.truth(x.body))))
     if isinstance(x, GenDesc):
@@ -337,6 +375,8 @@ def b_any(ex, st, node, args, kw):
 
 def b_all(ex, st, node, args, kw):
     (x,) = args
+    if isinstance(x, BoolFold):
+        return _fold(ex, st, x, False)
     if isinstance(x, GenSet):
         return VBool(z3.ForAll([x.c], z3.Implies(x.dom, ex.truth(x.body))))
     if isinstance(x, GenDesc):
